@@ -869,7 +869,7 @@ theorem applyData_cur_id (s : State) (sl : Slot) (d : Bytes) :
     · next b hb => simp [hb, optId]
     · next hb => simp [hb]
 
-set_option maxHeartbeats 1000000 in
+
 theorem Own_step {P : Params} {A : Assembler} {script : List Item} {s s' : State} {a : Step}
     (hp : PoolOK P s) (hr : ReuseOK s) (h : Own s) (hs : step P A script s a = some s') : Own s' := by
   cases a <;> simp only [step] at hs
